@@ -125,6 +125,16 @@ class Obj:
         return f"<{self.cls.qname} {self.attrs if len(str(self.attrs)) < 80 else '...'}>"
 
 
+class Opaque:
+    """Marker base for host-Python objects a check hands to the evaluator (paths, ...): attribute access, operators and
+    method calls on them are performed natively."""
+
+
+class NativeCall:
+    def __init__(self, fn):
+        self.fn = fn
+
+
 class BuiltinMethod:
     def __init__(self, obj, name):
         self.obj = obj
@@ -298,6 +308,9 @@ class PE:
         if isinstance(b, Top):
             return b
         t = type(op)
+        if isinstance(a, Opaque) or isinstance(b, Opaque):
+            return {ast.Div: operator.truediv, ast.Add: operator.add, ast.Sub: operator.sub, ast.Mult: operator.mul,
+                    ast.FloorDiv: operator.floordiv, ast.Mod: operator.mod}[t](a, b)
         if isinstance(a, Arr) or isinstance(b, Arr):
             if t is ast.MatMult:
                 if not isinstance(a, Arr):
@@ -872,6 +885,9 @@ class PE:
         if isinstance(base, Closure):
             if attr == "__name__":
                 return base.name.rpartition(".")[2]
+        if isinstance(base, Opaque):
+            v = getattr(base, attr)
+            return NativeCall(v) if callable(v) else v
         raise PEError(f"attribute {attr} of {type(base).__name__}")
 
     # ------------------------------------------------------------ classes/objects
@@ -1094,6 +1110,8 @@ class PE:
             if h is None:
                 return Top(f"unmodelled call {f.qname}")
             return h(self, args, kwargs)
+        if isinstance(f, NativeCall):
+            return f.fn(*args, **kwargs)
         if isinstance(f, BuiltinMethod):
             from . import pe_models
 
